@@ -26,8 +26,8 @@ for d in sorted(glob.glob(os.path.join(ROOT, "seeded", "C??_m?"))):
     what = (m.get("name") or "")[:60]
     files = ",".join(os.path.basename(f) for f in m.get("files", []))[:40]
     rows.append(f"| {tag} | {what} ({files}) | {kind} {first} | {h} | {others} |")
-txt = ("One hundred and forty changes were produced by fresh sub-agents that saw only the property text and a scratch worktree (seven rounds: m1, m2 two per property, "
-       "then m3 ... m7 one per property each with a different area of the code suggested from the property text; `seeded/<id>/patch.diff`, `demo.rs`, `meta.json`). "
+txt = ("One hundred and sixty changes were produced by fresh sub-agents that saw only the property text and a scratch worktree (eight rounds: m1, m2 two per property, "
+       "then m3 ... m8 one per property each with a different area of the code suggested from the property text; `seeded/<id>/patch.diff`, `demo.rs`, `meta.json`). "
        "Every one was confirmed by me in the agent's worktree: the demo passes without "
        "the patch and fails with it, and the unedited test suite passes with it (C02_m1 and C06_m1 fail one randomly-seeded test in some "
        "runs; the C18 changes are invisible to the default build and need the portable scanner). Each was then applied to a copy of `/repo` "
@@ -40,9 +40,12 @@ txt = ("One hundred and forty changes were produced by fresh sub-agents that saw
        "families and were re-run under three seeds; C06_m6 (HashTable clone), C10_m6 (drain of an empty table with tombstones) and C14_m6 (raw entry from_hash / rename) needed new operations; "
        "round 7 (20; every agent was told to change code that NO earlier round had touched -- the list of functions touched so far was computed from the stored patches): 13 with replay, 1 no-failing-input (C07_m7: the two sets always shared hasher state), "
        "6 NOT reported (C03_m7, C11_m7: no zero-sized element type with drop glue / observable Clone; C04_m7: no callback faults on HashTable operations; C08_m7: shrink_to_fit on a table whose capacity() had fallen to len(); "
-       "C10_m7: extract_if on a sparse table with a two-group collision chain; C19_m7: par_eq on the same map object with a non-reflexive value). "
+       "C10_m7: extract_if on a sparse table with a two-group collision chain; C19_m7: par_eq on the same map object with a non-reflexive value); "
+       "round 8 (20; again only code that no earlier round had touched): 16 with replay, 1 no-failing-input (C08_m8: the capacity oracles judged the spare room from the dumped growth_left, not from what capacity() itself answers), "
+       "3 NOT reported (C02_m8: an over-aligned zero-sized element met a removal only by a random choice of element kind; C03_m8: a destructor that panics while a Drain drops its remainder -- C03 armed no destructor panics; "
+       "C16_m8: `fn rustc_iter(&self) -> Iter<'a, K, V>` on `Drain<'a>` satisfies the three signature rules U, B, L -- closed by a fourth rule (S) with its own theorem in C16b). "
        "Every miss was traced to a gap in the *generators / operations / element kinds / relevance predicates* (never to a proof) and closed; see each `meta.json` "
-       "(`check_history`). The rounds also exposed two false alarms of my own (13.5). Final state: all 140 are reported by the check of their own property with a concrete, shrunk replay "
+       "(`check_history`). The rounds also exposed three false alarms of my own (13.5). Final state: all 160 are reported by the check of their own property with a concrete, shrunk replay "
        "(`seeded/MATRIX.json`: every check against every seed of rounds 1-2, quick tier). Column `also` lists the other "
        "properties' checks that report the same change (with a replay, or -- in parentheses -- as no-failing-input-found because the "
        "generated definitions or the bit-exact tie they share broke).\n\n"
